@@ -98,6 +98,7 @@ type Worker interface {
 
 	configs() configs
 	notifyToPullNextJobs()
+	releaseWaiters(processing uint32)
 }
 
 // newWorker creates a new worker with the given worker function and configurations
